@@ -7,7 +7,7 @@ out = f"/tmp/seed_out/{pid}"
 p = next(json.loads(l) for l in open('/verif/properties.jsonl') if json.loads(l)['id'] == pid)
 print(f"""You are helping to evaluate a verification tool by producing realistic *seeded defects* for the Python library GenJAX (a probabilistic programming language on JAX).
 
-You have your own scratch git worktree of the library at {wt} (library source under {wt}/src/genjax, tests under {wt}/tests). Work ONLY inside {wt} and {out}. Never read or touch /repo or /verif.
+You have your own scratch git worktree of the library at {wt} (library source under {wt}/src/genjax, tests under {wt}/tests). Work ONLY inside {wt} and {out}. Never read or touch /repo or /verif. Never kill processes you did not start yourself (other people run tests on this machine in parallel).
 
 How to run code against your worktree (the interpreter /venv/bin/python has all dependencies; PYTHONPATH shadows the installed copy):
   cd {wt} && PYTHONPATH={wt}/src /venv/bin/python your_script.py
